@@ -58,19 +58,31 @@ def run(chk, F):
                   "condition class c that is accepted and all branch classes a,b")
     if not T.has("INLINE_IF"):
         raise AnalysisBroken("checkExpression has no case for INLINE_IF")
-    from .convex import truth_set
-    integral = truth_set(F, "is_integral", D)
-
-    def cls(ocs):
-        # integral kinds are one class: getInlineIfCommonType legitimately returns t1 in one clause and t2 in
-        # its twin, and all integral kinds are mutually assignment compatible
-        return {("accept", "<integral>") if (oc[0] == "accept" and oc[1] in integral) else oc for oc in ocs}
+    # (An earlier version counted all integral kinds as one class here - "getInlineIfCommonType legitimately returns t1
+    # in one clause and t2 in its twin".  The property speaks of the kind of the resulting type, and int / bool differ
+    # observably one level up - `x <= (b ? 5 : true)` is an invariant, `x <= (!b ? true : 5)` was not; E14-1.)
     for c in ("INT", "BOOL"):
         for a, b in itertools.combinations(D, 2):
-            x, y = cls(row("INLINE_IF", (c, a, b))), cls(row("INLINE_IF", (c, b, a)))
+            x, y = row("INLINE_IF", (c, a, b)), row("INLINE_IF", (c, b, a))
             chk.ob(rid, "%s|%s,%s" % (c, a, b), x == y,
                    "`%s ? %s : %s` gives %s but `%s ? %s : %s` gives %s" % (c, a, b, sorted(x), c, b, a, sorted(y)),
                    loc, sample="?:(%s,%s,%s) %s" % (c, a, b, sorted(x)))
+    # the swapped form has the negated condition: the classes accepted as a condition are closed under NOT
+    if not T.has("NOT"):
+        raise AnalysisBroken("checkExpression has no case for NOT")
+    for c in D:
+        if not any(oc[0] == "accept" for oc in row("INLINE_IF", (c, "INT", "INT"))):
+            continue
+        neg = row("NOT", (c,))
+        bad = []
+        for oc in neg:
+            if oc[0] != "accept":
+                bad.append("!c is rejected")
+            elif not all(o2[0] == "accept" for o2 in row("INLINE_IF", (oc[1], "INT", "INT"))):
+                bad.append("!c has class %s, which is not accepted as a condition" % oc[1])
+        chk.ob(rid, "negated condition|%s" % c, not bad,
+               "`c ? a : b` is accepted for a condition of class %s but `!c ? b : a` is not: %s" % (c, "; ".join(bad)),
+               loc, sample="condition class %s: the negation is accepted as a condition too" % c)
 
     # same class, different types: two records (arrays, scalar sets, ranges) are different members of one class; the
     # evaluator keeps them apart by operand tag, and the relations it cannot look into (loops over fields) stay as atoms
@@ -572,3 +584,95 @@ def typekind(chk, F):
                    "%s compares the kind of a type with %s, which no type constructor ever produces (an expression "
                    "kind): the test is always false" % (fn["q"], en), "%s:%s" % (fn["file"], n.get("l")))
     chk.analysed["R-TYPEKIND"] = {"constructible_type_kinds": sorted(constructible), "comparison_sites": n_sites}
+
+
+# ---------------------------------------------------------------------------------------------- R-DECOMP
+def run_decomp(chk, F, rid="R-DECOMP"):
+    """visitLocation replaces the invariant by what RateDecomposer::decompose rebuilds, and takes has_stop_watch /
+    has_strict_invariants from what it finds on the way.  decompose has to know every shape that checkExpression types as an
+    invariant with rates, whichever operand carries the rate (found by a defect-hunt sub-agent: `b || (x' == 0 && x < 5)` and
+    `(x' == 0 && x < 5) || b` set different flags, `b && x' == 0` and `x' == 0 && b` left invariants of different type)."""
+    from ..tables import CheckExprTable
+    from ..inline import expanded_fn, strip
+    from ..facts import walk, calls, short
+    from .effects import binder_kinds
+    from .exprlaws import size_table
+    chk.rule(rid, "RateDecomposer::decompose has a branch for every expression kind that checkExpression can type "
+                  "INVARIANT_WR - a kind test, or for the quantifier forms the final branch, which descends into the last "
+                  "operand (the body) - visits both operands of the binary ones, and types the conjunction it rebuilds by "
+                  "both conjuncts (never by the constant INVARIANT of the conjunct appended last)")
+    T = CheckExprTable(F)
+    cur, wr = [], set()
+    for labels, s in T.items:
+        if labels:
+            cur = labels
+        if any(x.get("dk") == "enumerator" and x.get("name") == "INVARIANT_WR" for x in walk(s)):
+            wr.update(cur)
+    if not {"AND", "EQ", "FORALL"} <= wr:
+        raise AnalysisBroken("kinds typed INVARIANT_WR not found in checkExpression (%s)" % sorted(wr))
+    fns = [f for f in F.functions.values() if f.get("name") == "decompose" and (f.get("cls") or "").endswith("RateDecomposer")
+           and f.get("body") is not None]
+    if not fns:
+        raise AnalysisBroken("RateDecomposer::decompose not found")
+    fn = expanded_fn(fns[0], F, accept=lambda t: bool(t.get("static")) and not t.get("cls"), maxdepth=2)
+    loc = "%s:%s" % (fn["file"], fn["line"])
+    # the if-chain on the kind of the expression
+    tested = {}
+    for n in walk(fn["body"]):
+        if n.get("k") == "if":
+            for x in walk(n["c"]):
+                if x.get("k") == "bin" and x.get("op") == "==":
+                    for a, b in ((x["lhs"], x["rhs"]), (x["rhs"], x["lhs"])):
+                        a, b = strip(a), strip(b)
+                        if isinstance(a, dict) and a.get("k") == "call" and a.get("name") == "get_kind" and \
+                                isinstance(b, dict) and b.get("dk") == "enumerator" and "get_type" not in short(a):
+                            tested.setdefault(b["name"], n)
+    binders = binder_kinds(F)
+    sizes, _ = size_table(F)
+    # the final else: which child does it descend into?
+    last_child = any(c.get("name") == "decompose" and c.get("args") and "get_size" in short(c["args"][0])
+                     for c in calls(fn["body"]))
+    for K in sorted(wr):
+        if K in tested:
+            br = tested[K]["then"]
+            rec = [c for c in calls(br) if c.get("name") == "decompose"]
+            idx = set()
+            for c in rec:
+                a = strip(c["args"][0]) if c.get("args") else None
+                if isinstance(a, dict) and a.get("k") == "call" and a.get("args"):
+                    i = strip(a["args"][-1])
+                    if isinstance(i, dict) and i.get("k") == "int":
+                        idx.add(i["v"])
+            need = set(range(sizes.get(K, 2))) if K in ("AND", "OR") else set()
+            chk.ob(rid, "branch|%s" % K, need <= idx,
+                   "RateDecomposer::decompose visits only operand(s) %s of %s: a rate or a strict bound in the other "
+                   "operand is not found, so the verdict depends on the order of the operands" % (sorted(idx), K), loc,
+                   sample="decompose has a branch for %s visiting operands %s" % (K, sorted(idx) or "-"))
+        elif K in binders:
+            ar = sizes.get(K)
+            ok = last_child or ar == 2
+            chk.ob(rid, "branch|%s" % K, ok,
+                   "RateDecomposer::decompose handles %s in its final branch, which descends into operand 1; the body of %s "
+                   "is operand %s" % (K, K, (ar or 0) - 1), loc, sample="%s: final branch descends into the body" % K)
+        else:
+            chk.ob(rid, "branch|%s" % K, False,
+                   "checkExpression can type a %s expression INVARIANT_WR, but RateDecomposer::decompose has no branch for "
+                   "%s: it falls into the branch meant for forall, which looks at operand 1 only - `b || (x' == 0 && x < 5)` "
+                   "and `(x' == 0 && x < 5) || b` give different has_stop_watch() / has_strict_invariants()" % (K, K), loc)
+    # typing of the rebuilt conjunction
+    n = 0
+    for c in calls(fn["body"]):
+        if c.get("name") == "create_binary" and c.get("args") and strip(c["args"][0]).get("name") == "AND":
+            n += 1
+            targ = c["args"][-1]
+            consts = {x.get("name") for x in walk(targ) if x.get("dk") == "enumerator"}
+            conditional = any(x.get("k") == "cond" for x in walk(targ)) or \
+                any(x.get("k") == "ref" and x.get("dk") == "local" for x in walk(targ))
+            ok = conditional or consts == {"INVARIANT_WR"}
+            chk.ob(rid, "join|%s" % ("+".join(sorted(consts)) or "?"), ok,
+                   "RateDecomposer::decompose types the conjunction `invariant && conjunct` as %s whatever the invariant "
+                   "collected so far is: `x' == 0 && b` is stored with type INVARIANT although it contains a rate, "
+                   "`b && x' == 0` with INVARIANT_WR" % "/".join(sorted(consts)), "%s:%s" % (fn["file"], c.get("l")),
+                   sample="the conjunction is typed by both conjuncts")
+    if n < 1:
+        raise AnalysisBroken("RateDecomposer::decompose builds no conjunction")
